@@ -137,6 +137,17 @@ GEN = [
     "sc_a := 1 + 2; sc_b <- sc_a * 3.5; DS_r <- DS_1 * sc_b;",
     "DS_r <- if DS_1 > 0 then DS_1 else DS_1 * -1; DS_n <- nvl(DS_1, 0);",
     "define operator mx (a dataset, b dataset) returns dataset is if a > b then a else b end operator; define operator two (d dataset) returns dataset is mx(d, d * 2) end operator; DS_r <- two(DS_1);",
+    # definitions of different kinds that share a name (separate namespaces), several definitions of one kind
+    "define datapoint ruleset rs (variable Me_1) is r1: Me_1 > 0 errorcode \"E1\" end datapoint ruleset; "
+    "define hierarchical ruleset rs (variable rule Id_2) is A = B + C errorcode \"H\" end hierarchical ruleset; "
+    "DS_r <- check_datapoint(DS_1, rs all); DS_h <- check_hierarchy(DS_1, rs rule Id_2 all);",
+    "define datapoint ruleset d1 (variable Me_1) is Me_1 > 0 end datapoint ruleset; define datapoint ruleset d2 (variable Me_1) is r1: Me_1 < 10 errorlevel 0 end datapoint ruleset; "
+    "DS_r <- check_datapoint(DS_1, d1); DS_s <- check_datapoint(DS_1, d2 all_measures);",
+    "define hierarchical ruleset h1 (variable rule Id_2) is A = B + C; B = D end hierarchical ruleset; define hierarchical ruleset h2 (variable rule Id_2) is A >= C end hierarchical ruleset; "
+    "DS_r <- hierarchy(DS_1, h1 rule Id_2 partial_zero dataset all); DS_s <- hierarchy(DS_1, h1 rule Id_2 non_zero rule_priority computed); DS_t <- check_hierarchy(DS_1, h2 rule Id_2 always_null dataset all_measures); "
+    "DS_u <- hierarchy(DS_1, h1 rule Id_2 rule); DS_v <- check_hierarchy(DS_1, h2 rule Id_2 dataset_priority invalid);",
+    "define operator rs (d dataset) returns dataset is d * 2 end operator; define datapoint ruleset rs (variable Me_1) is Me_1 > 1 end datapoint ruleset; DS_r <- check_datapoint(rs(DS_1), rs all);",
+    "DS_r <- check_datapoint(DS_1, late all); define datapoint ruleset late (variable Me_1) is Me_1 > 2 errorcode \"\" end datapoint ruleset;",
 ]
 
 
